@@ -55,7 +55,8 @@ const LE2: Enc = Enc { ver: Ver::V2, be: false };
 const BE2: Enc = Enc { ver: Ver::V2, be: true };
 
 /// the choices dust-dds makes where the standard leaves freedom (used for the repository's own vectors)
-pub const DUST: Policy = Policy { order_by_id: true, lc_by_size_any: true, share_nextint: true, v1_len_padded: false, v1_rtps_sentinel: true };
+pub const DUST: Policy =
+    Policy { order_by_id: true, lc_by_size_any: true, share_nextint: true, v1_len_padded: false, v1_rtps_sentinel: true, v1_origin_sticky: true };
 
 pub fn vectors() -> Vec<Vector> {
     let mut v: Vec<Vector> = vec![];
